@@ -84,6 +84,22 @@ type payIn struct {
 	Total    amt
 	Rates    []rateX
 	Lines    []lineIn
+	// a tax summary the payment carries BEFORE the calculation (as the total
+	// above: figures that arrived with a stored document or were left by an
+	// earlier calculation); the property makes the result a function of the lines
+	PrevTax *totalIn `json:",omitempty"`
+}
+
+// editIn is one in-memory edit of a calculated payment (recalculation relation).
+type editIn struct {
+	Op     string // drop-line add-line drop-doc-tax drop-doc set-doc-tax currency line-amounts line-currency doc-currency clear-lines swap rates
+	I, J   int
+	Line   *lineIn  `json:",omitempty"`
+	Tax    *totalIn `json:",omitempty"`
+	Cur    string   `json:",omitempty"`
+	Debit  *amt     `json:",omitempty"`
+	Credit *amt     `json:",omitempty"`
+	Rates  []rateX  `json:",omitempty"`
 }
 
 type tcase struct {
@@ -93,6 +109,9 @@ type tcase struct {
 	Pay    *payIn
 	RA, RB *rateIn
 	Stream string
+	// Op "repay": Pay is calculated, then every round of edits is applied to the
+	// in-memory payment and it is calculated again
+	Rounds [][]editIn `json:",omitempty"`
 }
 
 func mk(a amt) num.Amount { return num.MakeAmount(a.V, a.E) }
@@ -713,6 +732,17 @@ func genPay(r *rand.Rand) *payIn {
 		}
 		p.Lines = append(p.Lines, l)
 	}
+	if r.Intn(3) == 0 {
+		// figures present before the calculation, like p.Total: own ones or those of a line's document
+		sh := shape{exp: pe}
+		p.PrevTax = genTotal(r, sh)
+		for _, l := range p.Lines {
+			if l.Tax != nil && r.Intn(2) == 0 {
+				p.PrevTax = related(r, l.Tax, sh)
+				break
+			}
+		}
+	}
 	return p
 }
 
@@ -776,6 +806,10 @@ func Run(c *core.Ctx) int {
 	for i := 0; i < np; i++ {
 		cases = append(cases, tcase{Op: "pay", Pay: genPay(r), Stream: "payment"})
 	}
+	nr := c.Pick(4000, 40000)
+	for i := 0; i < nr; i++ {
+		cases = append(cases, genRepay(r))
+	}
 	return runCases(c, cases)
 }
 
@@ -788,6 +822,7 @@ type goOut struct {
 	req       []string
 	expectTax string
 	payErr    string
+	fam       map[string]int
 }
 
 func ptrShared(a, b *tax.Total) (pct, ext int) {
@@ -896,7 +931,7 @@ func runChunk(c *core.Ctx, cases []tcase, base int) bool {
 	return true
 }
 
-const ruleText = ("pairs and sequences of tax summaries: uniform precision (raw figures and Total.Calculate output in EUR/USD/JPY/KWD/CLF under both rounding rules), second operand derived from the first (figures changed, rows dropped/added/reordered, surcharge on one side only, other key or percentage spelling for the same group, retained flag flipped) or independent; streams with duplicate categories / rate groups, exempt groups carrying surcharges, mixed precisions; RateTotal.Matches pairs; Total.Calculate; payments with 0..10 debit/credit lines in 1..3 currencies (missing and duplicate exchange rates, amounts finer/coarser than their currency, documents in other currencies, with and without tax summaries, GR currency rounding rule); non-trivial = operands share at least one category (merge), non-empty summary (negate), at least one line (payment); distinct by canonical input text")
+const ruleText = ("pairs and sequences of tax summaries: uniform precision (raw figures and Total.Calculate output in EUR/USD/JPY/KWD/CLF under both rounding rules), second operand derived from the first (figures changed, rows dropped/added/reordered, surcharge on one side only, other key or percentage spelling for the same group, retained flag flipped) or independent; streams with duplicate categories / rate groups, exempt groups carrying surcharges, mixed precisions; RateTotal.Matches pairs; Total.Calculate; payments with 0..10 debit/credit lines in 1..3 currencies (a previous total and/or tax summary on the payment, missing and duplicate exchange rates, amounts finer/coarser than their currency, documents in other currencies, with and without tax summaries, GR currency rounding rule); recalculation: a calculated payment edited in memory (lines dropped/added/swapped/cleared, a document or its tax summary dropped or replaced, amounts, line/document/payment currency, exchange rates) over 1..3 rounds and calculated again, against a fresh parse of its JSON with and without the previous results; non-trivial = operands share at least one category (merge), non-empty summary (negate), at least one line (payment); distinct by canonical input text")
 
 func fieldStr(resp string, name string) string {
 	toks := strings.Fields(resp)
@@ -1069,6 +1104,8 @@ func goEval(c *core.Ctx, t tcase, idx int) (o goOut) {
 		o.req = []string{fmt.Sprintf("calc %d %d %s", e, b2i(t.A.Currency), sa)}
 	case "pay":
 		o = payEval(t.Pay)
+	case "repay":
+		o = repayEval(t)
 	}
 	return
 }
@@ -1092,6 +1129,9 @@ func payEval(p *payIn) (o goOut) {
 		pm.ExchangeRates = append(pm.ExchangeRates, &currency.ExchangeRate{From: currency.Code(x.From), To: currency.Code(x.To), Amount: mk(x.Amount)})
 		te, _ := curExp(x.To)
 		fmt.Fprintf(&sb, " %s %s %s %d", core.Hex(x.From), core.Hex(x.To), sA(mk(x.Amount)), te)
+	}
+	if p.PrevTax != nil {
+		pm.Tax = p.PrevTax.build()
 	}
 	fmt.Fprintf(&sb, " %d", len(p.Lines))
 	var docTaxes []*tax.Total
@@ -1310,6 +1350,18 @@ func judge(c *core.Ctx, t tcase, o goOut, resp []string, idx int) {
 		}
 	case "pay":
 		judgePay(c, t, o, resp, key)
+	case "repay":
+		c.Eval(key, len(t.Rounds) > 0)
+		for k, n := range o.fam {
+			c.Count(k, int64(n))
+		}
+		if o.pan != "" {
+			c.Fail("", "Payment.Calculate panicked on a recalculation: "+o.pan, t)
+			return
+		}
+		if o.note != "" {
+			c.Fail("", o.note, t)
+		}
 	}
 }
 
@@ -1469,6 +1521,15 @@ func judgePay(c *core.Ctx, t tcase, o goOut, resp []string, key string) {
 	c.Count(fmt.Sprintf("pay-currencies:%d", len(curs)), 1)
 	if weird {
 		c.Count("pay:document-summary-with-exempt-surcharge", 1)
+	}
+	if p.PrevTax != nil {
+		nsum := 0
+		for _, l := range p.Lines {
+			if l.HasDoc && l.Tax != nil {
+				nsum++
+			}
+		}
+		c.Count("pay:previous-summary-given:document-summaries="+bucket(nsum), 1)
 	}
 	if o.pan != "" {
 		c.Fail("", "Payment.Calculate panicked: "+o.pan, t)
